@@ -174,7 +174,7 @@ def run_property(spec, tier, seed, extract=None):
             for o in h.ops:
                 k = o.split(" ")[0]
                 op_hist[k] = op_hist.get(k, 0) + 1
-            tags = set(h.tags)
+            tags = {t for t in h.tags if not t.startswith("view-pairs:")}      # positional bookkeeping for a monitor, not a branch tag
             if es.tags:
                 tags |= es.tags(h, io)
             for t in tags:
